@@ -26,18 +26,46 @@ type KVWrap struct {
 	Removes     int
 	openWindows atomic.Int32 // RangeKeys(non-empty)→RemoveKeys/abort windows currently open
 	MaxWindows  atomic.Int32
+	hook        func(op string, key []byte)
 }
 
 var _ chord.KVProvider = (*KVWrap)(nil)
 
 func (k *KVWrap) Inner() chord.KVProvider { return k.inner }
 
-func (k *KVWrap) Put(ctx context.Context, key, value []byte) error { return k.inner.Put(ctx, key, value) }
+// Hook, when set, runs at the start of every mutating client operation on this
+// store (Put, Delete, PrefixAppend, PrefixRemove) - i.e. inside the node's
+// KV handler, while the node holds its surrogate read lock. A harness uses it
+// as a schedule point inside a storage operation.
+func (k *KVWrap) SetHook(h func(op string, key []byte)) {
+	k.mu.Lock()
+	k.hook = h
+	k.mu.Unlock()
+}
+
+func (k *KVWrap) runHook(op string, key []byte) {
+	k.mu.Lock()
+	h := k.hook
+	k.mu.Unlock()
+	if h != nil {
+		h(op, key)
+	}
+	k.net.delay()
+}
+
+func (k *KVWrap) Put(ctx context.Context, key, value []byte) error {
+	k.runHook("Put", key)
+	return k.inner.Put(ctx, key, value)
+}
 func (k *KVWrap) Get(ctx context.Context, key []byte) ([]byte, error) {
 	return k.inner.Get(ctx, key)
 }
-func (k *KVWrap) Delete(ctx context.Context, key []byte) error { return k.inner.Delete(ctx, key) }
+func (k *KVWrap) Delete(ctx context.Context, key []byte) error {
+	k.runHook("Delete", key)
+	return k.inner.Delete(ctx, key)
+}
 func (k *KVWrap) PrefixAppend(ctx context.Context, prefix, child []byte) error {
+	k.runHook("PrefixAppend", prefix)
 	return k.inner.PrefixAppend(ctx, prefix, child)
 }
 func (k *KVWrap) PrefixList(ctx context.Context, prefix []byte) ([][]byte, error) {
@@ -47,6 +75,7 @@ func (k *KVWrap) PrefixContains(ctx context.Context, prefix, child []byte) (bool
 	return k.inner.PrefixContains(ctx, prefix, child)
 }
 func (k *KVWrap) PrefixRemove(ctx context.Context, prefix, child []byte) error {
+	k.runHook("PrefixRemove", prefix)
 	return k.inner.PrefixRemove(ctx, prefix, child)
 }
 func (k *KVWrap) Acquire(ctx context.Context, lease []byte, ttl time.Duration) (uint64, error) {
